@@ -620,8 +620,9 @@ func checkC07InitKey(c *Ctx) {
 	if n == 0 {
 		r.Unk("C07.init-resets-main-buffer", "history.Init:undo-reset", "-", "the reset of the main buffer's undo states was not found")
 	}
-	// every path on which the new call starts on the line being typed (walk position -1, no kept line) drops the
-	// states of that line — also after operate-and-get-next on a line that was typed, not fetched
+	// every path on which the new call starts on the line being typed (walk position -1) drops the states of that
+	// line — also after operate-and-get-next on a line that was typed, not fetched, and when a kept line is installed
+	// (it is the initial content of the new line)
 	isReset := func(x ssa.Instruction) bool {
 		mu, ok := x.(*ssa.MapUpdate)
 		if !ok {
@@ -645,9 +646,6 @@ func checkC07InitKey(c *Ctx) {
 		return false
 	}
 	assume := func(cond ssa.Value) (bool, bool) {
-		if isFieldLoad(cond, "history.Sources", "acceptHold") {
-			return false, true
-		}
 		if bo, ok := cond.(*ssa.BinOp); ok && (bo.Op == token.EQL || bo.Op == token.NEQ) && isFieldLoad(bo.X, "history.Sources", "hpos") {
 			if k, isK := constInt(bo.Y); isK {
 				eq := k == -1
